@@ -474,7 +474,11 @@ pub(crate) fn on_retract_response(
     } = core.split_mut();
     let mut to_workers: Map<WorkerId, Vec<(TaskId, ResourceVariantId)>> = Map::new();
     for task_id in task_ids {
-        let task = task_map.get_task_mut(*task_id);
+        let Some(task) = task_map.find_task_mut(*task_id) else {
+            // The task was canceled or failed while the retract was on its way
+            log::debug!("Retracted task {task_id} is not known anymore");
+            continue;
+        };
         if !matches!(task.state, TaskRuntimeState::Retracting { worker_id: w_id } if worker_id == w_id)
         {
             log::debug!("Retracted task {task_id} is in invalid state");
